@@ -459,6 +459,33 @@ Proof.
       * eapply NoDup_map_inv. apply (st3b _ _ _ St).
       * intros c Hc. apply (st3 _ _ _ St). exact Hc.
 Qed.
+
+(* the linearisation itself: an order of ALL calls of the trace (each returned) that replays on the spec's sequential object to
+   the returned values and respects real time *)
+Theorem lin_of_validated es :
+  trace_ok O es = true -> (forall t c, In (ECall t c) es -> dom c = true) ->
+  exists cs ord sf os, calls_of es 0 [] = (cs, true) /\ forallb (fun c => dom (c_call c)) cs = true /\
+    (forall x, In x cs <-> In x ord) /\ NoDup (map c_inv ord) /\ NoDup (map c_inv cs) /\ RT ord /\
+    (forall c, In c cs -> exists r, c_res c = Some r /\ c_inv c < r) /\
+    replay S step s0 ord = Some (sf, os) /\ Forall2 (fun c o => ret_ok same c o = true) ord os.
+Proof.
+  intros Hok Hd. destruct (trace_ok_reachable O es Hok) as [s [Hr Hq]].
+  destruct (sim_steps _ _ _ Hr [] 0 []) as [cs [ord [E [St [Th [sf [os [Rp [Rr Fp]]]]]]]]]; auto.
+  - apply inv1_init.
+  - split; cbn; auto; try contradiction; constructor.
+  - intros t. cbn. intros c [].
+  - exists s0, []. cbn. repeat split; auto; try constructor.
+  - assert (Hret : forall c, In c cs -> c_res c <> None).
+    { intros c Hc. specialize (Th (c_t c)). rewrite (Hq (c_t c)) in Th. apply Th; auto. }
+    exists cs, ord, sf, os. split; auto. split; [apply forallb_forall; intros c Hc; apply (st8 _ _ _ St c Hc)|].
+    split; [intros x; split; [intros Hx; apply (st4 _ _ _ St); auto|apply (st3 _ _ _ St)]|].
+    split; [apply (st3b _ _ _ St)|]. split; [apply (st2 _ _ _ St)|]. split; [apply (st7 _ _ _ St)|].
+    split.
+    + intros c Hc. destruct (c_res c) as [r|] eqn:Er; [|exfalso; now apply (Hret c)].
+      exists r. split; auto. destruct (st1 _ _ _ St c Hc) as [_ A2]. now destruct (A2 r Er).
+    + split; auto. eapply Forall2_impl_in; [exact Fp|]. intros c o Hc Hp. unfold P in Hp.
+      destruct (c_res c) eqn:Er; auto. exfalso. apply (Hret c); auto. apply (st3 _ _ _ St). exact Hc.
+Qed.
 End Sim.
 
 (* ================================================================== the four sequential objects of the specs *)
